@@ -352,11 +352,13 @@ def check_unary(project: Project, rep):
 
 
 def check_pad_snap(project: Project, rep):
+    from .merge import check_pad_semantic
+    sem = check_pad_semantic(project, rep)
     uv = project.function("persim.landscapes.auxiliary.union_vals")
     rep.analysed(uv)
     uvn = fn_view(project, uv)
     pads = [n for n in ast.walk(uvn) if isinstance(n, ast.Call) and project.resolve(uv.module, n.func, local_names(uvn)) == "numpy.pad"]
-    if len(pads) < 2:
+    if len(pads) < 2 and sem.get("vals") != "ok":
         rep.unmodelled("AR-PAD", uv, uv.node, "padding calls not found")
     for pnode in pads:
         target = ast.unparse(pnode.args[0]) if pnode.args else None
@@ -424,7 +426,7 @@ def check_pad_snap(project: Project, rep):
                         good = False
                         rep.refuted("AR-PAD", uc, n, f"when `{missing}` is missing, `{ast.unparse(apps[0].args[0])}` is appended instead "
                                                      f"of `{other}`")
-    else:
+    elif sem.get("crit") != "ok":
         rep.unmodelled("AR-PAD", uc, uc.node, "depth pairing loop (zip_longest) not found")
     # AR-SNAP
     sp = project.function("persim.landscapes.tools.snap_pl")
@@ -609,7 +611,9 @@ def run(project: Project, rep, tier: str):
         "reachable only through the negative edge of the 'already computed' test. AR-GUARD: mismatch guards precede the sum. "
         "AR-UNARY: negation / scalar product / quotient of both classes are executed symbolically on a landscape with generic "
         "critical points / values and compared with (t, −y), (t, c·y), (t, y/c); result keeps degree and grid; quotient by 0 "
-        "raises. AR-PAD, AR-SNAP: site rules. Declined: correctness of the slope merge of exact landscapes.")
+        "raises. AR-PAD, AR-SNAP: site rules. AR-MERGE (bounded): the slope merge of two depths is followed for every ordering "
+        "class of the breakpoints with up to 3 (thorough: 4) breakpoints per operand and compared with f_A + f_B at every "
+        "breakpoint of the union. Declined: the merge for longer operands.")
     rep.assume("landscape operands are instances of the two landscape classes (duck-typed by the attributes they use)")
     check_effects(project, rep)
     check_lazy(project, rep)
@@ -618,6 +622,8 @@ def run(project: Project, rep, tier: str):
     check_pad_snap(project, rep)
     check_lincomb(project, rep)
     check_arm_consistency(project, rep)
+    from .merge import check_merge
+    check_merge(project, rep, max_len=4 if tier == "thorough" else 3)
     # AR-DEFAULT: the grid a re-sampling is asked for — `None` means "derive it from the inputs"; a truth test would also
     # replace an explicit 0
     from .common import none_vs_truthiness
@@ -631,7 +637,7 @@ def run(project: Project, rep, tier: str):
     if not bad:
         rep.discharged("AR-DEFAULT", None, None, f"{n_keys} grid parameters of the landscape tools use None as the 'not given' "
                                                  f"marker; none is truth-tested", nontrivial=False)
-    for rn, n in (("AR-EFFECT", 30), ("AR-OWN", 30), ("AR-LAZY", 4), ("AR-GUARD", 9), ("AR-UNARY", 11), ("AR-PAD", 5), ("AR-SNAP", 2), ("AR-LC", 1)):
+    for rn, n in (("AR-EFFECT", 30), ("AR-OWN", 30), ("AR-LAZY", 4), ("AR-GUARD", 9), ("AR-UNARY", 11), ("AR-PAD", 4), ("AR-SNAP", 2), ("AR-LC", 1), ("AR-MERGE", 1)):
         rep.floor(rn, n)
     for t in ("numpy.pad", "numpy.interp", "itertools.zip_longest"):
         rep.trust(t)
